@@ -279,14 +279,14 @@ pub fn exec_op(ctx: &Arc<Ctx>, op: &Op, caller: usize, nested: bool, local: &mut
                 loop {
                     if *n > 0 && got >= *n { break; }
                     match block_on(s.next(), None).unwrap() {
-                        Some(v) => { ctx.streams[*k].received.lock().unwrap().push(v); got += 1; }
-                        None => { ctx.streams[*k].ended_seen.store(true, SeqCst); break; }
+                        Some(v) => { desync::verif::log("api", "CONSUMED", v as usize, String::new()); ctx.streams[*k].received.lock().unwrap().push(v); got += 1; }
+                        None => { desync::verif::log("api", "CONSUMEDEND", *k, String::new()); ctx.streams[*k].ended_seen.store(true, SeqCst); break; }
                     }
                 }
             }
             return;
         }
-        Op::DropStream => { local.out.take(); return; }
+        Op::DropStream => { desync::verif::log("api", "DROPSTREAM", 0, String::new()); local.out.take(); return; }
         Op::AwaitRelease(k) => {
             // the pipe must let go of its input stream and closure: wait for it (a pipe that never does is reported as a hang)
             while !ctx.streams[*k].released.load(SeqCst) { rt::thread::yield_now(); }
@@ -308,7 +308,7 @@ pub fn exec_op(ctx: &Arc<Ctx>, op: &Op, caller: usize, nested: bool, local: &mut
                 pipe_process(&c2, k2, q2, p, item);
                 futures::future::ready(item * 10 + 7).boxed()
             });
-            if *d > 0 { out.set_backpressure_depth(*d); }
+            if *d > 0 { desync::verif::log("api", "SETDEPTH", *d, String::new()); out.set_backpressure_depth(*d); }
             local.out = Some((*k, out));
             return;
         }
@@ -604,10 +604,10 @@ pub fn run_program(ctx: &Arc<Ctx>) {
     let mut hs = vec![];
     for (c, ops) in prog.callers.iter().enumerate().skip(1) {
         let (ctx2, ops2) = (ctx.clone(), ops.clone());
-        hs.push(rt::thread::spawn(move || { desync::verif::log("api", "CALLER", c, String::new()); let mut l = Local::default(); for o in &ops2 { exec_top(&ctx2, o, c, &mut l); } }));
+        hs.push(rt::thread::spawn(move || { desync::verif::log("api", "CALLER", c, String::new()); let mut l = Local::default(); for o in &ops2 { exec_top(&ctx2, o, c, &mut l); } if l.out.is_some() { desync::verif::log("api", "DROPSTREAM", 1, String::new()); } }));
     }
     desync::verif::log("api", "CALLER", 0, String::new());
-    if let Some(ops) = prog.callers.get(0) { let mut l = Local::default(); for o in ops { exec_top(ctx, o, 0, &mut l); } }
+    if let Some(ops) = prog.callers.get(0) { let mut l = Local::default(); for o in ops { exec_top(ctx, o, 0, &mut l); } if l.out.is_some() { desync::verif::log("api", "DROPSTREAM", 1, String::new()); } }
     for h in hs { h.join().unwrap(); }
     desync::verif::log("api", "END", 0, String::new());
     // Quiescence: with a pool, wait without touching the queues; without one, callers must carry the work
